@@ -3144,3 +3144,35 @@ pub(crate) fn verif_filter_parameters(
     };
     d.calculate_filter_parameters(&mb)
 }
+
+/// One intra predictor on a caller-supplied workspace: 0 = B_DC, 1 = TrueMotion of `size`,
+/// 2..=9 = B_VE, B_HE, B_LD, B_RD, B_VR, B_VL, B_HD, B_HU, 10 = vertical of `size`,
+/// 11 = horizontal of `size`, anything else = DC of `size` with the two availability flags.
+#[cfg(image_webp_verif)]
+#[allow(clippy::too_many_arguments)]
+pub(crate) fn verif_predict(
+    kind: u8,
+    a: &mut [u8],
+    size: usize,
+    x0: usize,
+    y0: usize,
+    stride: usize,
+    above: bool,
+    left: bool,
+) {
+    match kind {
+        0 => predict_bdcpred(a, x0, y0, stride),
+        1 => predict_tmpred(a, size, x0, y0, stride),
+        2 => predict_bvepred(a, x0, y0, stride),
+        3 => predict_bhepred(a, x0, y0, stride),
+        4 => predict_bldpred(a, x0, y0, stride),
+        5 => predict_brdpred(a, x0, y0, stride),
+        6 => predict_bvrpred(a, x0, y0, stride),
+        7 => predict_bvlpred(a, x0, y0, stride),
+        8 => predict_bhdpred(a, x0, y0, stride),
+        9 => predict_bhupred(a, x0, y0, stride),
+        10 => predict_vpred(a, size, x0, y0, stride),
+        11 => predict_hpred(a, size, x0, y0, stride),
+        _ => predict_dcpred(a, size, stride, above, left),
+    }
+}
